@@ -138,18 +138,37 @@ func vServerSession(tok, payload []byte, key [4]byte) []byte {
 	return obs
 }
 
+var vSharedDialer = ws.Dialer{Protocols: []string{"chat"}, Extensions: []httphead.Option{httphead.NewOption("permessage-deflate", map[string]string{"client_max_window_bits": ""})}}
+
 // vClientSession: a client-side session (masked writes: observed after unmasking).
 func vClientSession(payload []byte) []byte {
 	var obs []byte
-	d := ws.Dialer{Protocols: []string{"chat"}, Extensions: []httphead.Option{DefaultParameters.Option()}}
+	// every session dials through a copy of one shared Dialer value (as with ws.DefaultDialer or
+	// an application-wide dialer): the configuration, including the offered extension's
+	// parameters, is shared memory that a session may only read
+	d := vSharedDialer
+	var offered []byte
 	srv := &vScript{in: func(wrote []byte) []byte {
-		return []byte("HTTP/1.1 101 Switching Protocols\r\nUpgrade: websocket\r\nConnection: Upgrade\r\nSec-WebSocket-Accept: " + vAcceptOf(wrote) + "\r\nSec-WebSocket-Protocol: chat\r\n\r\n")
+		if i := bytes.Index(wrote, []byte("Sec-WebSocket-Extensions: ")); i >= 0 {
+			j := bytes.Index(wrote[i:], []byte("\r\n"))
+			offered = append([]byte{}, wrote[i+26:i+j]...)
+		}
+		return []byte("HTTP/1.1 101 Switching Protocols\r\nUpgrade: websocket\r\nConnection: Upgrade\r\nSec-WebSocket-Accept: " + vAcceptOf(wrote) + "\r\nSec-WebSocket-Protocol: chat\r\nSec-WebSocket-Extensions: permessage-deflate; server_no_context_takeover; client_max_window_bits=10\r\n\r\n")
 	}}
 	_, hs, err := d.Upgrade(srv, &url.URL{Scheme: "ws", Host: "h", Path: "/"})
 	if err != nil {
 		return append(obs, "dial-error"...)
 	}
 	obs = append(obs, hs.Protocol...)
+	obs = append(obs, '[')
+	obs = append(obs, offered...)
+	obs = append(obs, ']')
+	if len(hs.Extensions) == 1 {
+		if v, ok := hs.Extensions[0].Parameters.Get("client_max_window_bits"); ok {
+			obs = append(obs, v...)
+		}
+	}
+	obs = append(obs, '|')
 	out := &vRecW{}
 	wsutil.WriteClientMessage(out, ws.OpBinary, payload)
 	fs, ok := vParse(out.all)
